@@ -124,7 +124,39 @@ fn corruptions<G: Grp>(rng: &mut StdRng, pool: &Pool, out: &mut Out, thorough: b
 }
 
 /// points with a small x so that x + q fits in 256 bits: x = small integers that carry a point (G1)
+/// q - i as 32 bytes
+fn q_minus(i: u8) -> [u8; 32] {
+    let mut v = [0u8; 32];
+    v.copy_from_slice(&q_bytes());
+    let mut borrow = i as i16;
+    for k in (0..32).rev() {
+        let t = v[k] as i16 - borrow;
+        if t < 0 { v[k] = (t + 256) as u8; borrow = 1; } else { v[k] = t as u8; borrow = 0; }
+        if borrow == 0 { break; }
+    }
+    v
+}
+
 fn small_x_cases(out: &mut Out) {
+    // coordinates just below q (top limbs equal to q's): x = q - i, both prefixes; Fq2 components q - i
+    for i in 1u8..40 {
+        let x = q_minus(i);
+        for pre in [2u8, 3u8] {
+            let mut v = vec![pre];
+            v.extend_from_slice(&x);
+            decode_ev::<G1>(out, "cmp", &v);
+            if let Some(p) = G1::dec(&v, "cmp") {
+                let e = p.enc("raw");
+                decode_ev::<G1>(out, "raw", &e);
+                let mut u = vec![4u8];
+                u.extend_from_slice(&e);
+                decode_ev::<G1>(out, "unc", &u);
+            }
+        }
+        let mut w = x.to_vec();
+        w.extend_from_slice(&q_minus(i.wrapping_mul(7) % 40 + 1));
+        out.call("f2.from_slice", json!({"in": b(&w)}), || outs! {"out" => opt_bytes(Fq2::from_slice(&w).map(|v| v.to_slice()))});
+    }
     for xi in 0u8..40 {
         let mut x = [0u8; 32];
         x[31] = xi;
@@ -229,6 +261,36 @@ pub fn run_decode(a: &Args, out: &mut Out) {
 
 // ------------------------------------------------------------------------------------------------ affine (C09)
 pub fn run_affine(a: &Args, out: &mut Out) {
+    // G1 on / off-curve pairs whose x-coordinate is a Montgomery-boundary value of the TLC-generated pool (zero limbs, all-ones
+    // limbs, half-limb boundaries ...): AffineG1::new squares the caller's coordinates directly
+    {
+        let pool = load_pool(&a.pool, "Fq");
+        let mut rng = rng_from(a.seed, "affine");
+        let n = pool.vals.len();
+        let mut k = 0;
+        for i in 0..pool.vals.len() {
+            if k >= n { break; }
+            let idx = i;
+            let _ = &mut rng;
+            let x = Fq::from_slice(&pool.vals[idx]).unwrap();
+            let rhs = x * x * x + G1::b();
+            if let Some(y) = rhs.sqrt() {
+                k += 1;
+                let (sx, sy) = (x.to_slice(), y.to_slice());
+                out.call("g.affine_new", json!({"G": "G1", "x": b(&sx), "y": b(&sy), "kind": "pool-x-on-curve"}), || {
+                    outs! {"out" => Value::from(if G1::affine_new(&sx, &sy).is_some() { "ok" } else { "err" })}
+                });
+                let sy1 = (y + Fq::one()).to_slice();
+                out.call("g.affine_new", json!({"G": "G1", "x": b(&sx), "y": b(&sy1), "kind": "pool-x-off-curve"}), || {
+                    outs! {"out" => Value::from(if G1::affine_new(&sx, &sy1).is_some() { "ok" } else { "err" })}
+                });
+                // and with the roles swapped: a boundary value as y (on the curve only by accident)
+                out.call("g.affine_new", json!({"G": "G1", "x": b(&sy), "y": b(&sx), "kind": "pool-y"}), || {
+                    outs! {"out" => Value::from(if G1::affine_new(&sy, &sx).is_some() { "ok" } else { "err" })}
+                });
+            }
+        }
+    }
     let txt = std::fs::read_to_string(&a.input).expect("--in twist point file (from spec/GenTwist.tla)");
     let v: Value = serde_json::from_str(&txt).expect("json");
     for p in v["g2"].as_array().unwrap() {
